@@ -5,6 +5,6 @@ LEAN_MODULES = _auto.lean_modules("C04")
 VARIANTS = ['default']
 RULE = 'histories to depth 4 over {process, process_mut, seek, clone} with lengths straddling 64 in every phase; DRG request sequences over pre-filled buffers; non-trivial = non-empty data; distinct = distinct case lines'
 TRUSTED = ["hand-written Lean models (lean/CxVerif/Impl, Spec) tied to the code by the correspondence run and by tables re-extracted from /repo/src"]
-ASSUMPTIONS = []
+ASSUMPTIONS = ['data lengths < 2^64 per call (usize); `clone` independence is a correspondence obligation as in C02']
 gen = _auto.make_gen("C04")
 nontrivial = _auto.default_nontrivial
